@@ -34,6 +34,7 @@ func gen(t *rapid.T) sw.Scenario {
 			sc.Ops = append(sc.Ops, sw.Op{Kind: "crash"})
 		}
 	}
+	sc.GenVia(t)
 	return sc
 }
 
@@ -41,7 +42,7 @@ func run(sc sw.Scenario, dir string) world.Verdict {
 	return sw.InBubble(func() world.Verdict {
 		root, _ := os.MkdirTemp(dir, "c07")
 		defer os.RemoveAll(root)
-		w, err := sw.New(world.NodeOpts{ChainID: "c07-chain", InitialHeight: sc.InitialHeight, RootDir: root, MempoolTTL: sc.MempoolTTL})
+		w, err := sw.New(world.NodeOpts{ChainID: "c07-chain", InitialHeight: sc.InitialHeight, RootDir: root, MempoolTTL: sc.MempoolTTL, ViaDAClient: sc.ViaClient, DAClientLimit: sc.ClientLimit, Prometheus: sc.Prometheus})
 		if err != nil {
 			return world.Fail("C07/start", "NewManager failed: %v", err)
 		}
@@ -56,6 +57,9 @@ func run(sc sw.Scenario, dir string) world.Verdict {
 				return world.Fail("C07/restart-fails", "op %d (%s): %v", i, o.Kind, err)
 			}
 			labels["op:"+o.Kind] = true
+			if sc.ViaClient {
+				labels["through-the-real-da-client"] = true
+			}
 			if o.Kind == "script" {
 				daFault = true
 			}
